@@ -28,7 +28,7 @@ theorem readingUpTo_succ (ts : List TS) (m : Nat) :
     readingUpTo ts (m + 1) = readingUpTo ts m ++ (if ts.getD m .new = .reading then [m] else []) := by
   simp only [readingUpTo, List.range_succ, List.filter_append, List.filter_cons, List.filter_nil]
   congr 1
-  by_cases h : ts.getD m .new = .reading <;> simp [h]
+  by_cases h : ts.getD m .new = .reading <;> simp
 
 theorem noReading_succ' (ts : List TS) (k m : Nat) :
     noReading ts k (m + 1) = (noReading ts k m && (decide (m < k) || ts.getD m .new != .reading)) := by
